@@ -656,3 +656,33 @@ Section PTPayload.
                                  (g / N, g mod N, v)
                   end) E.
 End PTPayload.
+
+(* ------------------------------------------------------------------ *)
+(* subsystem_apply.py: _one_subsystem_apply with an operator channel.
+     n_blks = prod(dims[:idx]); blk_sz = shape[0] // n_blks
+     every (blk_r, blk_c) block is split by _block_split into d x d sub-blocks
+     (d = channel.shape[0], sub-block size blk_sz // d) and _top_apply_U sets
+       out[a][b] = sum_{c, e} U[a, c] * conj(U[b, e]) * block[c][e]
+   Written as a function of the flat indices: (block, sub-block, offset). *)
+Definition sa_blk_sz (dims : list nat) (idx : nat) : nat := prod dims / prod (firstn idx dims).
+Definition sa_sub (dims : list nat) (idx : nat) : nat := sa_blk_sz dims idx / nth idx dims 1.
+Definition sa_split (dims : list nat) (idx i : nat) : nat * nat * nat :=
+  let bs := sa_blk_sz dims idx in
+  let sub := sa_sub dims idx in
+  (i / bs, (i mod bs) / sub, (i mod bs) mod sub).
+Definition sa_join (dims : list nat) (idx b a l : nat) : nat :=
+  b * sa_blk_sz dims idx + a * sa_sub dims idx + l.
+
+Definition gconj (a : G) : G := (fst a, (- snd a)%Z).
+Definition mget (M : list (list G)) (i j : nat) : G := nth j (nth i M []) g0.
+Definition one_subsystem_apply_U (dims : list nat) (idx : nat) (U rho : list (list G))
+  : list (list G) :=
+  let N := prod dims in
+  let d := nth idx dims 1 in
+  map (fun i => map (fun j =>
+      let '(bi, a, li) := sa_split dims idx i in
+      let '(bj, b, lj) := sa_split dims idx j in
+      sum_upto G g0 gadd d (fun c => sum_upto G g0 gadd d (fun e =>
+        gmul (gmul (mget U a c) (gconj (mget U b e)))
+             (mget rho (sa_join dims idx bi c li) (sa_join dims idx bj e lj)))))
+    (seq 0 N)) (seq 0 N).
